@@ -1,0 +1,67 @@
+//go:build verif
+
+package cff
+
+// Hooks for the verification harness of property C04 (compiling glyphs to
+// Type 2 charstrings).  Add-only; compiled only with the build tag "verif".
+
+// VerifC04Number is an encoded operand: the value the encoder reports and its bytes.
+type VerifC04Number struct {
+	Val  float64
+	Code []byte
+}
+
+// VerifC04Edge is one edge offered by encoder.AppendEdges: the operand and
+// operator byte groups, and the index of the command the edge leads to.
+type VerifC04Edge struct {
+	Code [][]byte
+	To   int
+}
+
+// VerifC04EncodeNumber exposes encodeNumber.
+func VerifC04EncodeNumber(x float64) VerifC04Number {
+	e := encodeNumber(x)
+	return VerifC04Number{Val: e.Val, Code: e.Code}
+}
+
+// VerifC04EncodeArgs exposes encodeArgs: per command the encoded relative operands
+// (for mask commands one pseudo-operand holding the mask bytes).
+func VerifC04EncodeArgs(cmds []GlyphOp) [][]VerifC04Number {
+	ec := encodeArgs(cmds)
+	out := make([][]VerifC04Number, len(ec))
+	for i, c := range ec {
+		for _, a := range c.Args {
+			out[i] = append(out[i], VerifC04Number{Val: a.Val, Code: a.Code})
+		}
+	}
+	return out
+}
+
+// VerifC04Edges runs encodeArgs on a run of lineto/curveto commands (relative
+// to the current point (x0, y0)) and returns, for every start index, the
+// edges encoder.AppendEdges offers.
+func VerifC04Edges(x0, y0 float64, cmds []GlyphOp) [][]VerifC04Edge {
+	all := append([]GlyphOp{{Op: OpMoveTo, Args: []float64{x0, y0}}}, cmds...)
+	enc := encoder(encodeArgs(all)[1:])
+	out := make([][]VerifC04Edge, len(enc))
+	for from := range enc {
+		for _, e := range enc.AppendEdges(nil, from) {
+			out[from] = append(out[from], VerifC04Edge{Code: e.code, To: e.to})
+		}
+	}
+	return out
+}
+
+// VerifC04EncodeCharString exposes (*Glyph).encodeCharString.
+func VerifC04EncodeCharString(g *Glyph, defaultWidth, nominalWidth float64) ([]byte, error) {
+	return g.encodeCharString(defaultWidth, nominalWidth)
+}
+
+// VerifC04SelectWidths exposes (*Font).selectWidths for the given glyph widths.
+func VerifC04SelectWidths(widths []float64) (float64, float64) {
+	f := &Font{Outlines: &Outlines{}}
+	for _, w := range widths {
+		f.Glyphs = append(f.Glyphs, &Glyph{Width: w})
+	}
+	return f.selectWidths()
+}
